@@ -258,12 +258,12 @@ func coqArgs() []string {
 }
 
 // modelPass1 runs the model on chunks (a single Coq list literal of tens of thousands of trees overflows coqc's parser).
-func modelPass1(trees []string, pairs [][2]string, outDir string) ([]string, []bool, []bool, error) {
+func modelPass1(trees []string, pairs [][2]string, outDir string) ([]string, []bool, []int, error) {
 	const chunk = 2500
 	type res struct {
 		r   []string
 		c   []bool
-		f   []bool
+		f   []int
 		err error
 	}
 	nChunks := (len(trees) + chunk - 1) / chunk
@@ -301,7 +301,8 @@ func modelPass1(trees []string, pairs [][2]string, outDir string) ([]string, []b
 		<-done
 	}
 	var rs []string
-	var cs, fs []bool
+	var cs []bool
+	var fs []int
 	for k := 0; k < nChunks; k++ {
 		if out[k].err != nil {
 			return nil, nil, nil, out[k].err
@@ -315,13 +316,13 @@ func modelPass1(trees []string, pairs [][2]string, outDir string) ([]string, []b
 	return rs, cs, fs, nil
 }
 
-func modelPass1Chunk(trees []string, pairs [][2]string, outDir string, k int) ([]string, []bool, []bool, error) {
+func modelPass1Chunk(trees []string, pairs [][2]string, outDir string, k int) ([]string, []bool, []int, error) {
 	var b strings.Builder
-	b.WriteString("From GC Require Import Base Model_Regex Model_RegexSimplify Proofs_RegexSimplify Proofs_RegexWalk.\n")
+	b.WriteString("From GC Require Import Base Model_Regex Model_RegexSimplify Proofs_RegexSimplify Proofs_RegexWalk Proofs_RegexWalkS.\n")
 	b.WriteString("Definition trees : list sx := [\n")
 	b.WriteString(strings.Join(trees, ";\n"))
 	b.WriteString("\n].\nDefinition R := Eval vm_compute in map (fun t => str_bytes (simplify1 t)) trees.\nPrint R.\n")
-	b.WriteString("Definition FRAG := Eval vm_compute in map (fun t => if in_fragment t && avoids_defects t then 1%N else 0%N) trees.\nPrint FRAG.\n")
+	b.WriteString("Definition FRAG := Eval vm_compute in map (fun t => ((if in_fragment t && avoids_defects t then 1 else 0) + (if pass_ok t then 2 else 0))%N) trees.\nPrint FRAG.\n")
 	b.WriteString("Definition pairs : list (sx * sx) := [\n")
 	for i, pr := range pairs {
 		if i > 0 {
@@ -358,10 +359,10 @@ func modelPass1Chunk(trees []string, pairs [][2]string, outDir string, k int) ([
 	if fi < i || fi > ci {
 		return nil, nil, nil, fmt.Errorf("round 1: no FRAG result: %s", tailStr(out, 400))
 	}
-	var frag []bool
+	var frag []int
 	for _, ch := range out[fi+6 : ci] {
-		if ch == '0' || ch == '1' {
-			frag = append(frag, ch == '1')
+		if ch >= '0' && ch <= '3' {
+			frag = append(frag, int(ch-'0'))
 		}
 		if ch == ':' {
 			break
@@ -420,6 +421,72 @@ func modelPass1Chunk(trees []string, pairs [][2]string, outDir string, k int) ([
 		return nil, nil, nil, fmt.Errorf("round 1: %d results for %d trees", len(res), len(trees))
 	}
 	return res, cert, frag, nil
+}
+
+// modelFinal: final_ok (hypothesis of C11_simplify_final_sound_partial) for (tree of the pattern, optional tree
+// of the first pass's text), evaluated by the kernel in parallel chunks.
+func modelFinal(ins [][2]string, outDir string) ([]bool, error) {
+	const chunk = 600
+	nChunks := (len(ins) + chunk - 1) / chunk
+	res := make([][]bool, nChunks)
+	errs := make([]error, nChunks)
+	sem := make(chan struct{}, 8)
+	done := make(chan int, nChunks)
+	for k := 0; k < nChunks; k++ {
+		go func(k int) {
+			sem <- struct{}{}
+			defer func() { <-sem; done <- k }()
+			lo, hi := k*chunk, (k+1)*chunk
+			if hi > len(ins) {
+				hi = len(ins)
+			}
+			var b strings.Builder
+			b.WriteString("From GC Require Import Base Model_Regex Model_RegexSimplify Proofs_RegexSimplify Proofs_RegexWalk Proofs_RegexWalkS.\n")
+			b.WriteString("Definition ins : list (sx * option sx) := [\n")
+			for i, in := range ins[lo:hi] {
+				if i > 0 {
+					b.WriteString(";\n")
+				}
+				b.WriteString("(" + in[0] + ", " + in[1] + ")")
+			}
+			b.WriteString("\n].\nDefinition FIN := Eval vm_compute in map (fun p => if final_ok (fst p) (snd p) then 1%N else 0%N) ins.\nPrint FIN.\n")
+			path := filepath.Join(outDir, fmt.Sprintf("round2_c11_%d.v", k))
+			common.WriteFile(path, b.String())
+			args := append([]string{"600", "coqc"}, coqArgs()...)
+			out, code, err := common.Run(700*time.Second, outDir, os.Environ(), "timeout", append(args, path)...)
+			if err != nil || code != 0 {
+				errs[k] = fmt.Errorf("coqc round 2 failed (%v, rc=%d): %s", err, code, tailStr(out, 800))
+				return
+			}
+			fi := strings.Index(out, "FIN =")
+			if fi < 0 {
+				errs[k] = fmt.Errorf("round 2: no result: %s", tailStr(out, 400))
+				return
+			}
+			for _, ch := range out[fi+5:] {
+				if ch == '0' || ch == '1' {
+					res[k] = append(res[k], ch == '1')
+				}
+				if ch == ':' {
+					break
+				}
+			}
+			if len(res[k]) != hi-lo {
+				errs[k] = fmt.Errorf("round 2: %d flags for %d inputs", len(res[k]), hi-lo)
+			}
+		}(k)
+	}
+	for k := 0; k < nChunks; k++ {
+		<-done
+	}
+	var all []bool
+	for k := 0; k < nChunks; k++ {
+		if errs[k] != nil {
+			return nil, errs[k]
+		}
+		all = append(all, res[k]...)
+	}
+	return all, nil
 }
 
 func tailStr(s string, n int) string {
@@ -873,6 +940,18 @@ func classify(pat, rw string, d *diff) string {
 	if d.Kind == "match" && has(pat, ")*") && has(rw, ")+") {
 		return "merge-of-nullable-group"
 	}
+	if d.Kind == "match" && hasFoldFlag(pat) && strings.Count(rw, "|") < strings.Count(pat, "|") {
+		for _, m := range reLitAlt.FindAllStringSubmatch(pat, -1) {
+			// x|hx under (?i): the second branch is one rune followed by (a suffix of what precedes the bar =) the first branch
+			rs := []rune(m[1])
+			for k := 0; k+2 <= len(rs); k++ {
+				a := string(rs[k:])
+				if strings.HasSuffix(m[2], a) && utf8.RuneCountInString(m[2]) == len(rs)-k+1 && !strings.HasPrefix(m[2], a) {
+					return "alt-suffix-factoring-under-fold-flag"
+				}
+			}
+		}
+	}
 	for _, m := range reLitAlt.FindAllStringSubmatch(pat, -1) {
 		// the first branch is a suffix of m[1] (group syntax such as "i:" or "<q>" may precede it)
 		rs := []rune(m[1])
@@ -1140,23 +1219,59 @@ func Run(tier string, seed int64, outDir string) *common.Meta {
 	}
 	meta.Distribution["rewrites_certified_equivalent_by_kernel"] = nCert
 	inFrag := make([]bool, len(pats))
-	nFrag, nFragRw := 0, 0
+	nFrag, nFragRw, nPlain, nPlainRw := 0, 0, 0, 0
 	for k, i := range round1Idx {
-		inFrag[i] = frags[k]
-		if frags[k] {
+		inFrag[i] = frags[k]&2 != 0
+		if inFrag[i] {
 			nFrag++
 			if rewrites[i] != "" {
 				nFragRw++
 			}
 		}
+		if frags[k]&1 != 0 {
+			nPlain++
+			if rewrites[i] != "" {
+				nPlainRw++
+			}
+		}
 	}
 	meta.Distribution["patterns_covered_by_fragment_theorem"] = nFrag
 	meta.Distribution["rewrites_covered_by_fragment_theorem_pass1"] = nFragRw
+	meta.Distribution["patterns_covered_by_the_earlier_capture_free_flag_free_theorem"] = nPlain
+	meta.Distribution["rewrites_covered_by_the_earlier_capture_free_flag_free_theorem_pass1"] = nPlainRw
+	// the FINAL rewrite (two-pass driver): hypothesis of C11_simplify_final_sound_partial
+	t2of := make([]string, len(pats))
+	finalCov := make([]bool, len(pats))
+	{
+		var ins [][2]string
+		var insIdx []int
+		for i := range pats {
+			if !parsed[i] || c1[i] == "" {
+				continue
+			}
+			t2of[i] = optTree(qp, c1[i])
+			ins = append(ins, [2]string{trees[i], t2of[i]})
+			insIdx = append(insIdx, i)
+		}
+		fin, err := modelFinal(ins, outDir)
+		if err != nil {
+			meta.TieBroken = append(meta.TieBroken, err.Error())
+			return meta
+		}
+		nFin := 0
+		for k, i := range insIdx {
+			finalCov[i] = fin[k]
+			if fin[k] && rewrites[i] != "" {
+				nFin++
+			}
+		}
+		meta.Distribution["rewrites_whose_final_text_tree_is_covered_by_final_theorem"] = nFin
+	}
 
 	// 4. simplifier cases
-	hdr := `From GC Require Import Base Model_Regex Model_RegexSimplify Proofs_RegexSimplify Proofs_RegexWalk.
+	hdr := `From GC Require Import Base Model_Regex Model_RegexSimplify Proofs_RegexSimplify Proofs_RegexWalk Proofs_RegexWalkS.
 Record case := { k_pat : string; k_tree : option sx; k_c1 : string; k_tree2 : option sx; k_obs : option string;
-                 k_tree3 : option sx; k_cert : bool; k_frag : bool; k_call : string }.
+                 k_tree3 : option sx; k_cert : bool; k_frag : bool; k_fin : bool; k_call : string }.
 Definition ostr_eqb (a b : option string) : bool :=
   match a, b with Some x, Some y => String.eqb x y | None, None => true | _, _ => false end.
 Definition case_ok (k : case) : bool :=
@@ -1173,7 +1288,9 @@ Definition case_ok (k : case) : bool :=
       (* the certificate used with C11_same_meaning_sound: pattern tree vs tree of the final rewrite *)
       && Bool.eqb (match k_tree3 k with Some t3 => same_meaning t t3 | None => false end) (k_cert k)
       (* hypotheses of C11_simplify_sound_partial; where they hold and the certificate can be computed, it agrees *)
-      && Bool.eqb (in_fragment t && avoids_defects t) (k_frag k)
+      && Bool.eqb (pass_ok t) (k_frag k)
+      (* hypothesis of C11_simplify_final_sound_partial, for the tree whose text is the final rewrite *)
+      && (if String.eqb (k_c1 k) "" then true else Bool.eqb (final_ok t (k_tree2 k)) (k_fin k))
   end.
 Definition cases : list case := [
 `
@@ -1192,7 +1309,10 @@ Definition cases : list case := [
 		}
 		t2 := "None"
 		if c1[i] != "" {
-			t2 = optTree(qp, c1[i])
+			t2 = t2of[i]
+			if t2 == "" {
+				t2 = optTree(qp, c1[i])
+			}
 		}
 		obs := "None"
 		if rewrites[i] != "" {
@@ -1207,10 +1327,10 @@ Definition cases : list case := [
 		if tree3[i] != "" {
 			t3 = "(Some " + tree3[i] + ")"
 		}
-		bodies[sh] = append(bodies[sh], fmt.Sprintf("  {| k_pat := %s; k_tree := %s; k_c1 := %s; k_tree2 := %s; k_obs := %s; k_tree3 := %s; k_cert := %s; k_frag := %s; k_call := %s |}",
-			coqfmt.Str(p), t, coqfmt.Str(c1[i]), t2, obs, t3, coqfmt.Bool(certified[i]), coqfmt.Bool(inFrag[i]), coqfmt.Str(callKinds[kindMustCompile].name)))
+		bodies[sh] = append(bodies[sh], fmt.Sprintf("  {| k_pat := %s; k_tree := %s; k_c1 := %s; k_tree2 := %s; k_obs := %s; k_tree3 := %s; k_cert := %s; k_frag := %s; k_fin := %s; k_call := %s |}",
+			coqfmt.Str(p), t, coqfmt.Str(c1[i]), t2, obs, t3, coqfmt.Bool(certified[i]), coqfmt.Bool(inFrag[i]), coqfmt.Bool(finalCov[i]), coqfmt.Str(callKinds[kindMustCompile].name)))
 		caseLine[i] = [2]string{fmt.Sprintf("  {| k_pat := %s; k_tree := %s; k_c1 := %s; k_tree2 := %s; k_obs := ", coqfmt.Str(p), t, coqfmt.Str(c1[i]), t2),
-			fmt.Sprintf("; k_tree3 := %s; k_cert := %s; k_frag := %s; k_call := ", t3, coqfmt.Bool(certified[i]), coqfmt.Bool(inFrag[i]))}
+			fmt.Sprintf("; k_tree3 := %s; k_cert := %s; k_frag := %s; k_fin := %s; k_call := ", t3, coqfmt.Bool(certified[i]), coqfmt.Bool(inFrag[i]), coqfmt.Bool(finalCov[i]))}
 		idx[sh] = append(idx[sh], fmt.Sprintf("%s: %q => %q", srcOf[i], p, rewrites[i]))
 		if rewrites[i] != "" && i%211 == 0 {
 			meta.AddSample(map[string]interface{}{"pattern": p, "rewrite": rewrites[i], "model_pass1": c1[i], "stream": srcOf[i]})
@@ -1226,13 +1346,13 @@ Definition cases : list case := [
 		if callKinds[so.kind].name == "regexp.Compile" || so.rw != "" {
 			if so.rw != rewrites[so.idx] && so.rw != "" {
 				// a different rewrite than at MustCompile: the certificate fields do not apply; compare the text only
-				line = fmt.Sprintf("  {| k_pat := %s; k_tree := None; k_c1 := \"\"; k_tree2 := None; k_obs := %s; k_tree3 := None; k_cert := false; k_frag := false; k_call := %s |}",
+				line = fmt.Sprintf("  {| k_pat := %s; k_tree := None; k_c1 := \"\"; k_tree2 := None; k_obs := %s; k_tree3 := None; k_cert := false; k_frag := false; k_fin := false; k_call := %s |}",
 					coqfmt.Str(pats[so.idx]), obs, coqfmt.Str(callKinds[so.kind].name))
 			} else {
 				line = caseLine[so.idx][0] + obs + caseLine[so.idx][1] + coqfmt.Str(callKinds[so.kind].name) + " |}"
 			}
 		} else {
-			line = fmt.Sprintf("  {| k_pat := %s; k_tree := None; k_c1 := \"\"; k_tree2 := None; k_obs := None; k_tree3 := None; k_cert := false; k_frag := false; k_call := %s |}",
+			line = fmt.Sprintf("  {| k_pat := %s; k_tree := None; k_c1 := \"\"; k_tree2 := None; k_obs := None; k_tree3 := None; k_cert := false; k_frag := false; k_fin := false; k_call := %s |}",
 				coqfmt.Str(pats[so.idx]), coqfmt.Str(callKinds[so.kind].name))
 		}
 		sh := j % shards
@@ -1381,6 +1501,7 @@ Definition cases : list case := [
 	uncertifiedClean := 0
 	classCount := map[string]int{}
 	coveredRefuted := map[string]int{}
+	finalCoveredRefuted := map[string]int{}
 	shrunkPerClass := map[string]int{}
 	for i, p := range pats {
 		if rewrites[i] == "" {
@@ -1408,6 +1529,11 @@ Definition cases : list case := [
 			// pass 1 is proved sound at tree level for this pattern: the damage must come from the text
 			// (re-lexing) or from the second pass
 			coveredRefuted[class]++
+		}
+		if finalCov[i] {
+			// every pass is proved sound at tree level and each pass started from a tree meaning what the previous
+			// one emitted: the damage can only be that Go reads the final TEXT differently from the final tree
+			finalCoveredRefuted[class]++
 		}
 		if shrunkPerClass[class] < 5 {
 			shrunkPerClass[class]++
@@ -1442,6 +1568,7 @@ Definition cases : list case := [
 	meta.Distribution["rewrites_neither_certified_nor_refuted"] = uncertifiedClean
 	meta.Distribution["oracle_defect_classes"] = classCount
 	meta.Distribution["oracle_refuted_although_pass1_tree_proved_sound"] = coveredRefuted
+	meta.Distribution["oracle_refuted_although_final_tree_proved_sound"] = finalCoveredRefuted
 	meta.Evaluations = len(pats) + semRuns + subjectsTried
 	meta.Distinct = nRewrites
 	meta.Rule = "patterns: the repo's regexpSimplify testdata strings and the defect corpus first, then grammar-based (small alphabet), metacharacter-heavy, class-heavy and mutation streams, all valid UTF-8 and accepted by regexp.Compile, <= 60 bytes plus a few longer ones; each is parsed by syntax.Parser{NoLiterals:true} (tree dumped as a Coq term), run through linter.NewChecker(regexpSimplify) on a type-checked generated file, and compared in Coq with the model's two-pass result (the parser supplies the tree of the model's pass-1 text); matcher model vs regexp.FindStringSubmatchIndex on sampled (pattern, subject) pairs; oracle: both sides of every proposed rewrite compiled by regexp and compared on NumSubexp, SubexpNames and FindStringSubmatchIndex over all subjects up to length 4 (5 thorough) over the pattern's alphabet + a foreign rune, \\n, \\v. distinct_nontrivial = number of distinct patterns for which the checker proposed a rewrite"
@@ -1470,6 +1597,7 @@ var corpus = []string{
 	`(|a)*`, `(|a)+`, `(a*)*b`, `(a*)+b`, `(a|b*)*c`, `(?:a*|b)*?c`, `(a??)*b`, `^a$|\bb\B`, `(?m)^a$`, `\Qa.b\E+`,
 	`a{2,3}?b`, `(a){2}`, `(a)|b`, `(?P<n>a)(b)?`, `[^a]`, `[a-c]`, `[a-a]`, `[a-b]`, `x\&y`, `\.\.`, `a    b`,
 	`^[0-9]+(\.[0-9]+)?$`, `[[:alpha:]][[:alnum:]]*x{0,1}`, `(a|b|c)[0-9][0-9]*`, `(?U:abc|ab)`, `(?U)xab|ab`, `aa|aaa`, `aaa|aa`, `❤❤|❤❤❤`, `xx|xxx`, `(?i:a)[b]`, `(?s:.)\.\.`, `(|a)*b{1}`, `a|`, `(?:s*?b*)(?:s*?b*)*`, `s(?i){0}`, `\0{1}0`, `[a-b-*]`, `(?:❤x|❤xb)`,
+	`(?i:aA|aaA)`, `(?i:ab|Aab)`, `(?i:aA|aaA)x`, `(foo|fo)`, `(?P<n>xfo|fo)b{1}`, `(fo|xfo)(?:a)`, `(a)(?:b)(?:b)*`, `((a)|b{1,})[c]`, `(?i:[k]b{1,})(c)   `, `(?s:.{0,1}a)\.`, `(?i)(a|b|c)x{1}`, `(?m:^[a]$)`, `(?U:a{1,}b)`,
 	`(?:a*b*)*c`, `(a*?)*b`, `(?:a?)*?b`, `((a*)+)+`, `(a*|b)+?c`, `(a??b??)*c`, `(?:(a)|b*)*c`, `(a*){2,3}b`, `(a*){2,}b`, `(a?){3}`,
 	`(a|){2,}?b`, `(?:a|(b))+`, `(?:(a)|(b))*`, `(a)*?(b)??`, `(?i)k+|ſ`, `(?i)[^k]`, `(?i)\W`, `(?s).\n`, `(?m)^$`, `(?U)a+?`, `(?U:a*)a`,
 	`....`, `aaaaa`, `\d\d\d`, `[ab][ab]`, `(?:ab)(?:ab)`, `[^\s]`, `[^\S]`, `[0-9]`, `[^0-9]`, `(?:a|b|c)`,
